@@ -56,14 +56,14 @@ contract('parso.cache._set_cache_item',
                                    'parser_cache[g1] is not parser_cache[g2]))',
                                    'forall(lambda g, p: implies(g in parser_cache and p in parser_cache[g], '
                                    'old(g in parser_cache and p in parser_cache[g]) and parser_cache[g][p] is old(parser_cache[g][p])))'])},
-         props=['C16'])
+         modifies=['parser_cache', '$maps'], props=['C16'])
 
 contract('parso.file_io.FileIO.get_last_modified', params={'self': 'ref:FileIO'}, returns='opt:int', trusted=True,
          ensures=['implies(not (result is None), result == cur_mtime(self.path))'],
          note='environment: the modification time observed now')
 contract('parso.cache._load_from_file_system',
          params={'hashed_grammar': 'any', 'path': 'any', 'p_time': 'int', 'cache_path': 'any'}, returns='ref:Module',
-         trusted=True, ensures=['implies(result is not None, result.ver == ver_at(path, p_time))'],
+         trusted=True, ensures=['implies(result is not None, result.ver == ver_at(path, p_time))'], modifies=['$maps'],
          note='disk branch: the analogous obligation (pickle mtime >= source mtime) is covered by the bounded stand-in')
 
 # ---- a tree from the in-memory cache is returned only while the entry's stamp is not older than the file's mtime.
@@ -79,4 +79,4 @@ contract('parso.cache.load_module',
                    'parser_cache[g][p].change_time <= cur_mtime(p) and '
                    'parser_cache[g][p].node.ver == ver_at(p, parser_cache[g][p].change_time)))'],
          ensures=['implies(result is not None, result.ver == ver_at(file_io.path, cur_mtime(file_io.path)))'],
-         raises=[], props=['C16'])
+         raises=[], modifies=['parser_cache', '$maps', 'last_used'], props=['C16'])
